@@ -43,6 +43,8 @@ type scheduler struct {
 	cur      int
 	fatal    interface{}
 	deadlock bool
+	// scheduling policy (see pick): 0 lowest-numbered first, 1 highest-numbered first, 2 round robin
+	policy int
 	acks     chan struct{}
 }
 
@@ -69,8 +71,27 @@ func (s *scheduler) runnable(t *gthread) bool {
 	return t.ready == nil || t.ready()
 }
 
-// pick returns the lowest-numbered runnable thread other than except (nil: any), or nil.
+// pick returns the next thread to run other than except (nil: any), or nil: the lowest-numbered
+// runnable one, or - under the alternative policies a harness may select with vSchedulePolicy -
+// the highest-numbered one (the goroutine started last goes first) or the next one in round-robin order.
 func (s *scheduler) pick(except *gthread) *gthread {
+	switch s.policy {
+	case 1:
+		for k := len(s.threads) - 1; k >= 0; k-- {
+			if t := s.threads[k]; t != except && s.runnable(t) {
+				return t
+			}
+		}
+		return nil
+	case 2: // round robin: the next runnable one after the thread that stops running
+		n := len(s.threads)
+		for d := 1; d <= n; d++ {
+			if t := s.threads[(s.cur+d)%n]; t != except && s.runnable(t) {
+				return t
+			}
+		}
+		return nil
+	}
 	for _, t := range s.threads {
 		if t != except && s.runnable(t) {
 			return t
